@@ -86,7 +86,7 @@ def cont2d(region, container, place, size, yaw, quick=False, default=("rect", "o
     return {
         "id": "cont2d:" + "/".join(cur),
         "family": "cont2d",
-        "tag": "cont2d[" + ",".join(diff) + "]",
+        "tag": "cont2d[" + (",".join(diff) or "default") + "]",
         "text": "\n".join(lines) + "\n",
         "mode2D": False,
         "dim": 2,
@@ -155,8 +155,20 @@ BASES3 = {
     "cyl": "import trimesh\nR = MeshVolumeRegion(trimesh.creation.cylinder(radius=2, height=4, sections=12), position=(2, 0, 3))",
     "lprism": "import trimesh, shapely.geometry\nR = MeshVolumeRegion(trimesh.creation.extrude_polygon(shapely.geometry.Polygon([(0,0),(4,0),(4,2),(2,2),(2,4),(0,4)]), 3), position=(1, 0, 3))",
     "smallbox": "R = BoxRegion(dimensions=(0.8, 0.8, 0.8), position=(2.4, 0, 3))",
+    "centre": "R = BoxRegion(dimensions=(0.6, 0.6, 0.6))",
 }
+_RODBOX = (
+    "import trimesh, math\n"
+    "_c = trimesh.creation.box((4, 4, 4))\n"
+    "_r = trimesh.creation.box((3, 0.1, 0.1))\n"
+    "_r.apply_translation((1.5, 0, 0))\n"
+    "_r.apply_transform(trimesh.transformations.rotation_matrix(math.radians(45), (0, 0, 1)))\n"
+    "_r.apply_translation((1.9, 1.9, 0))\n"
+    "workspace = Workspace(MeshVolumeRegion(trimesh.util.concatenate([_c, _r]), centerMesh=False))"
+)
 WORK3 = {
+    # a cube with a thin rod sticking out diagonally: its coarse voxelization is not a manifold
+    "wrodbox": _RODBOX,
     "wbox": "workspace = Workspace(BoxRegion(dimensions=(6, 6, 6), position=(0, 0, 3)))",
     "wsmall": "workspace = Workspace(BoxRegion(dimensions=(0.9, 0.9, 0.9), position=(2.2, 0.1, 3.1)))",
     "wsame": "workspace = Workspace(R)",
@@ -166,6 +178,7 @@ SIZES3 = {
     "tiny": "with width 0.2, with length 0.2, with height 0.2",
     "rand": "with height Range(0.3, 1.5)",
     "ball": "with shape SpheroidShape(dimensions=(1, 1, 1))",
+    "big": "with width 3.6, with length 3.6, with height 3.6",
 }
 
 
@@ -180,7 +193,7 @@ def cont3d(base, work, size, yaw="y0", quick=False):
     return {
         "id": "cont3d:" + "/".join(cur),
         "family": "cont3d",
-        "tag": "cont3d[" + ",".join(diff) + "]",
+        "tag": "cont3d[" + (",".join(diff) or "default") + "]",
         "text": "\n".join(lines) + "\n",
         "mode2D": False,
         "dim": 3,
@@ -190,12 +203,17 @@ def cont3d(base, work, size, yaw="y0", quick=False):
 
 def cont3d_programs():
     out = {}
-    q = [("box", "wbox", "unit"), ("cyl", "wbox", "tiny"), ("smallbox", "wsmall", "tiny"), ("box", "wsame", "unit")]
+    q = [("box", "wbox", "unit"), ("cyl", "wbox", "tiny"), ("smallbox", "wsmall", "tiny"), ("box", "wsame", "unit"), ("centre", "wrodbox", "big")]
     for t in q:
         p = cont3d(*t, quick=True)
         out[p["id"]] = p
+    for size in ("unit", "tiny"):
+        p = cont3d("centre", "wrodbox", size)
+        out[p["id"]] = p
     for base, work, size in itertools.product(BASES3, WORK3, SIZES3):
         if work == "wsmall" and base not in ("smallbox", "box"):
+            continue
+        if work == "wrodbox" or base == "centre" or size == "big":
             continue
         p = cont3d(base, work, size)
         out.setdefault(p["id"], p)
@@ -240,13 +258,13 @@ RH_FORMS = {
     "Q<=c": f"require {Q} <= -60 deg",
     "Q<c": f"require {Q} < -60 deg",
     "Q==c": f"require {Q} == 90 deg",
-    "Q!=c": f"require {Q} != 0",
+    "Q!=c": f"require {Q} != -90 deg",
     "c<=Q": f"require 60 deg <= {Q}",
     "c<Q": f"require 60 deg < {Q}",
     "c>=Q": f"require -60 deg >= {Q}",
     "c>Q": f"require -60 deg > {Q}",
     "c==Q": f"require 90 deg == {Q}",
-    "c!=Q": f"require 0 != {Q}",
+    "c!=Q": f"require 90 deg != {Q}",
     "a<=Q<=b": f"require 60 deg <= {Q} <= 120 deg",
     "a<Q<b": f"require 60 deg < {Q} < 120 deg",
     "a<=Q<b:neg": f"require -120 deg <= {Q} < -60 deg",
@@ -278,6 +296,30 @@ RH_FORMS = {
     "-Q<=-c": f"require -{Q} <= -60 deg",
     "soft": f"require[0.5] {Q} >= 60 deg",
     "two-requires": f"require {Q} >= 60 deg\nrequire {Q} <= 120 deg",
+    # constants for the heading pairs whose difference is 20 deg (170/-170, through the wrap)
+    "w20:Q>=c": f"require {Q} >= 10 deg",
+    "w20:Q<=c": f"require {Q} <= -10 deg",
+    "w20:a<=Q<=b": f"require 10 deg <= {Q} <= 30 deg",
+    "w20:abs(Q)<=c": f"require abs({Q}) <= 30 deg",
+    "w20:abs(Q)<=c:tight": f"require abs({Q}) <= 5 deg",
+    "w20:abs(Q-a)<=d": f"require abs({Q} - 20 deg) <= 5 deg",
+    "w20:abs(Q+a)<=d": f"require abs({Q} + 20 deg) <= 5 deg",
+    "w20:abs(Q)>=c": f"require abs({Q}) >= 10 deg",
+    # ... and 180 deg (0/180, -90/90)
+    "w180:Q>=c": f"require {Q} >= 150 deg",
+    "w180:Q<=c": f"require {Q} <= -150 deg",
+    "w180:abs(Q)<=c": f"require abs({Q}) <= 30 deg",
+    "w180:abs(Q-a)<=d": f"require abs({Q} - 180 deg) <= 20 deg",
+    "w180:abs(Q+a)<=d": f"require abs({Q} + 180 deg) <= 20 deg",
+    "w180:abs(Q)>=c": f"require abs({Q}) >= 150 deg",
+    "w180:or": f"require {Q} >= 150 deg or {Q} <= -150 deg",
+}
+HEADING_FORMS = {
+    "0/90": ("Q>=c", "Q<=c", "abs(Q)<=c", "abs(Q-a)<=d", "a<=Q<=b", "-a<=Q<=a", "abs(Q)>=c"),
+    "135/-135": ("Q>=c", "Q<=c", "abs(Q)<=c", "abs(Q-a)<=d", "abs(Q+a)<=d", "a<=Q<=b", "abs(Q)>=c"),
+    "170/-170": tuple(k for k in RH_FORMS if k.startswith("w20:")),
+    "0/180": tuple(k for k in RH_FORMS if k.startswith("w180:")),
+    "-90/90": tuple(k for k in RH_FORMS if k.startswith("w180:")),
 }
 DIST_FORMS = {
     "D<=c": f"require {D} <= 25",
@@ -310,9 +352,10 @@ DIST_FORMS = {
     "two-requires": f"require {D} <= 45\nrequire {D} <= 25",
 }
 # how the distance between the two objects is bounded
+RAYS = "with viewRayCount (36, 18)"  # explicit ray grid: keeps canSee cheap and deterministic
 BOUNDS = {
-    "rv": ("with visibleDistance 14", "with requireVisible True", ""),
-    "vf": ("with visibleDistance 14", "visible from ego", ""),
+    "rv": ("with visibleDistance 14, " + RAYS, "with requireVisible True", ""),
+    "vf": ("with visibleDistance 14, " + RAYS, "visible from ego", ""),
     "ev": ("", "with visibleDistance 14", None),  # ego visible from other: needs reordering
 }
 NOISE = {
@@ -337,7 +380,7 @@ def rh(layout, headings, bound, rhform, distform=None, noise="none", quick=False
         lines.append(f"ego = new Object in union, {face}")
         lines.append(f"other = new Object in union, {face}")
     elif bound == "ev":
-        lines.append(f"other = new Object in union, {face}, with visibleDistance 14")
+        lines.append(f"other = new Object in union, {face}, with visibleDistance 14, {RAYS}")
         lines.append(f"ego = new Object in union, {face}, visible from other")
     else:
         e, o, _ = BOUNDS[bound]
@@ -352,7 +395,7 @@ def rh(layout, headings, bound, rhform, distform=None, noise="none", quick=False
     return {
         "id": f"rh:{layout}/{headings}/{bound}/rh[{rhform}]" + (f"/dist[{distform}]" if distform else "") + ("/noise" if noise != "none" else ""),
         "family": "rh",
-        "tag": "rh[" + ",".join(diff) + "]",
+        "tag": "rh[" + (",".join(diff) or "default") + "]",
         "text": "\n".join(lines) + "\n",
         "mode2D": False,
         "dim": 2,
@@ -375,14 +418,15 @@ def rh_programs():
 
     # every RH form, distance bounded by visibility (two cells relevant: 14 < gap to cell 3)
     for f in RH_FORMS:
-        add(rh("gap3", "0/90", "rv", f, quick=f in QUICK_RH))
+        if not f.startswith("w"):
+            add(rh("gap3", "0/90", "rv", f, quick=f in QUICK_RH))
     # every distance form with the default RH form
     for f in DIST_FORMS:
         add(rh("gap3", "0/90", "dist", "Q>=c", f, quick=f in QUICK_DIST))
     # heading alphabets x a few forms, layouts, bounds
     for hd in HEADINGS:
-        for f in ("Q>=c", "Q<=c", "abs(Q)<=c", "abs(Q-a)<=d", "a<=Q<=b", "-a<=Q<=a", "abs(Q)>=c"):
-            add(rh("gap3", hd, "rv", f, quick=(hd in ("170/-170", "0/180") and f in ("abs(Q)<=c", "Q>=c"))))
+        for f in HEADING_FORMS[hd]:
+            add(rh("gap3", hd, "rv", f, quick=(hd != "0/90" and f.split(":")[-1] in ("abs(Q-a)<=d", "Q>=c"))))
             add(rh("adj", hd, "dist", f, "D<=c"))
     for lay in LAYOUTS:
         for b in ("rv", "vf", "ev"):
@@ -400,8 +444,8 @@ def rh_programs():
         add(rh("gap3", "0/90", "rv", "Q>=c", fd))
         add(rh("gap3", "0/90", "vf", "abs(Q)<=c", fd))
     # heading noise (orientation no longer exactly the field: must be ignored or handled)
-    add(rh("gap3", "0/90", "rv", "Q>=c", noise="noise", quick=True))
-    add(rh("gap3", "0/90", "dist", "Q>=c", "D<=c", noise="noise"))
+    add(rh("gap3", "0/90", "rv", "Q>=c", noise="noise"))
+    add(rh("gap3", "0/90", "dist", "Q>=c", "D<=c", noise="noise", quick=True))
     return list(out.values())
 
 
@@ -430,6 +474,7 @@ VIS_SIZES = {
     "ball": "with shape SpheroidShape(dimensions=(2, 2, 2))",
     "tiny": "with width 0.2, with length 0.2, with height 0.2",
     "rand": "with width Range(0.4, 2.0)",
+    "wide": "with width 2, with length 0.6",
 }
 VIS_PLACES = {
     "in": "in R",
@@ -439,8 +484,8 @@ VIS_PLACES = {
     "offr": "at (new Point in R) offset by (Range(-0.5, 0.5), 0)",
 }
 OBSERVERS = {
-    "fixed": "obs = new Object at (6, 4, 0), with visibleDistance {vd}, with allowCollisions True, {cone}",
-    "random": "obs = new Object in R2, with visibleDistance {vd}, with allowCollisions True, {cone}",
+    "fixed": "obs = new Object at (6, 4, 0), with visibleDistance {vd}, with allowCollisions True, {cone}, " + RAYS,
+    "random": "obs = new Object in R2, with visibleDistance {vd}, with allowCollisions True, {cone}, " + RAYS,
 }
 
 
@@ -450,14 +495,14 @@ def vis(construct, vd, cone="full", size="unit", place="in", observer="fixed", e
         "workspace = Workspace(PolygonalRegion([-4@-4, 12@-4, 12@10, -4@10]))",
     ]
     v = VDS[vd]
-    ego = _join("ego = new Object at (3, 3, 0)", f"with visibleDistance {v}", "with allowCollisions True", CONES[cone], egoface)
+    ego = _join("ego = new Object at (3, 3, 0)", f"with visibleDistance {v}", "with allowCollisions True", RAYS, CONES[cone], egoface)
     lines.append(ego)
     if "obs" in VIS_CONSTRUCTS[construct]:
         if observer == "random":
             lines.append("R2 = PolygonalRegion([5@3, 7@3, 7@5, 5@5])")
         lines.append(_join(OBSERVERS[observer].format(vd=v, cone=CONES[cone] or "with occluding False")))
     if "pt" in VIS_CONSTRUCTS[construct].split():
-        lines.append(f"pt = new Point at (6, 4, 0), with visibleDistance {v}")
+        lines.append(f"pt = new Point at (6, 4, 0), with visibleDistance {v}, {RAYS}")
     lines.append("foo = new Object " + _join(VIS_PLACES[place], VIS_CONSTRUCTS[construct], VIS_SIZES[size], "with allowCollisions True"))
     cur = dict(construct=construct, vd=vd, cone=cone, size=size, place=place, observer=observer, egoface=egoface or None)
     default = dict(construct="visible", vd="vd2", cone="full", size="unit", place="in", observer="fixed", egoface=None)
@@ -465,7 +510,7 @@ def vis(construct, vd, cone="full", size="unit", place="in", observer="fixed", e
     return {
         "id": "vis:" + "/".join(str(x) for x in cur.values()),
         "family": "vis",
-        "tag": "vis[" + ",".join(diff) + "]",
+        "tag": "vis[" + (",".join(diff) or "default") + "]",
         "text": "\n".join(lines) + "\n",
         "mode2D": False,
         "dim": 2,
@@ -476,8 +521,8 @@ def vis(construct, vd, cone="full", size="unit", place="in", observer="fixed", e
 def vis_cyclic(quick=False):
     text = (
         "workspace = Workspace(PolygonalRegion([0@0, 8@0, 8@6, 0@6]))\n"
-        "foo = new Object with requireVisible True, in workspace, with visibleDistance 2, with allowCollisions True\n"
-        "ego = new Object visible from foo, in workspace, with visibleDistance 2, with allowCollisions True\n"
+        f"foo = new Object with requireVisible True, in workspace, with visibleDistance 2, with allowCollisions True, {RAYS}\n"
+        f"ego = new Object visible from foo, in workspace, with visibleDistance 2, with allowCollisions True, {RAYS}\n"
     )
     return {"id": "vis:cyclic", "family": "vis", "tag": "vis[cyclic]", "text": text, "mode2D": False, "dim": 2, "quick": quick}
 
@@ -486,7 +531,7 @@ def vis3d(vd, size, quick=False):
     text = (
         "workspace = Workspace(BoxRegion(dimensions=(8, 8, 6), position=(0, 0, 3)))\n"
         "R = BoxRegion(dimensions=(5, 5, 4), position=(0, 0, 3))\n"
-        f"ego = new Object at (0, 0, 3), with visibleDistance {VDS[vd]}, with allowCollisions True\n"
+        f"ego = new Object at (0, 0, 3), with visibleDistance {VDS[vd]}, with allowCollisions True, {RAYS}\n"
         "foo = new Object " + _join("in R", "visible", VIS_SIZES[size], "with allowCollisions True") + "\n"
     )
     return {
@@ -522,8 +567,9 @@ def vis_programs():
     for c, v in q:
         add(vis(c, v, quick=True))
     add(vis("visible", "vd2", cone="cone", egoface="facing 30 deg", quick=True))
-    add(vis("requireVisible", "vd0.8", size="ball", place="onb", quick=True))
+    add(vis("requireVisible", "vd0.8", size="wide", place="onb", quick=True))
     add(vis("visible", "vd0.3", size="tiny", place="offs", quick=True))
+    add(vis("visible", "vd0.3", size="wide", quick=True))
     add(vis("visible-from-obs", "vd2", observer="random", quick=True))
     add(vis_cyclic(quick=True))
     add(vis3d("vd0.3", "tiny", quick=True))
